@@ -164,3 +164,51 @@ def block_of_stmt(fn, pred):
             if pred(s):
                 out.append((i, j))
     return out
+
+
+def bool_edges(fn, call_bb):
+    """for a call whose result is a bool that the next block branches on: (true block, false block)
+    or None.  Follows plain moves of the result and a `Not`."""
+    t = fn.blocks[call_bb]["t"]
+    if t["k"] != "call" or t["target"] is None or len(t["dest"]) != 1:
+        return None
+    cur = t["dest"][0]
+    neg = False
+    b = t["target"]
+    for _ in range(4):
+        blk = fn.blocks[b]
+        for s in blk["s"]:
+            if s["k"] == "assign" and len(s["lhs"]) == 1:
+                rv = s["rv"]
+                if rv["k"] == "use":
+                    pl = rv["op"].get("m") or rv["op"].get("c")
+                    if pl == [cur]:
+                        cur = s["lhs"][0]
+                elif rv["k"] == "un" and rv["op"] == "Not":
+                    pl = rv["a"].get("m") or rv["a"].get("c")
+                    if pl == [cur]:
+                        cur = s["lhs"][0]
+                        neg = not neg
+        sw = blk["t"]
+        if sw["k"] == "switch":
+            pl = sw["discr"].get("m") or sw["discr"].get("c")
+            if pl != [cur]:
+                return None
+            tb = fb = None
+            for v, x in sw["targets"]:
+                if v == "0":
+                    fb = x
+                elif v == "1":
+                    tb = x
+            if tb is None:
+                tb = sw["otherwise"]
+            if fb is None:
+                fb = sw["otherwise"]
+            if tb == fb:
+                return None
+            return (fb, tb) if neg else (tb, fb)
+        if sw["k"] == "goto":
+            b = sw["target"]
+            continue
+        return None
+    return None
